@@ -81,10 +81,10 @@ class Spectral:
         cls: zero | distinct | near (some relative gap in (1e-12, 2e-3)) | two_equal | all_equal
              (gap <= 1e-12), suffix _exact when the tensor is exactly diagonal with exactly equal entries.
         lode: which branch of a closed-form (Lode angle) decomposition the point belongs to:
-              g0 (zero / all equal), c2 (two largest equal), c3 (two smallest equal), cN (near), c1."""
+              z0 (zero), g0 (all equal), c2 (two largest equal), c3 (two smallest equal), cN (near), c1."""
         w, m, d = self.w, self.m, self.d
         if m == 0:
-            return "zero", "g0"
+            return "zero", "z0"
         gaps = np.diff(w) / m
         rep = gaps <= 1e-12
         near = (gaps > 1e-12) & (gaps < 2e-3)
